@@ -133,11 +133,11 @@ func checkC10(c *Ctx, w *World) {
 
 	type group struct {
 		field, fn, mode string
-		bad            []string
-		good           int
-		pos            string
-		detail         string
-		nontrivial     bool
+		bad             []string
+		good            int
+		pos             string
+		detail          string
+		nontrivial      bool
 	}
 	groups := map[string]*group{}
 	var order []string
